@@ -684,7 +684,10 @@ def norm_index(i, n, what="index"):
     if isinstance(i, SymInt):
         ob["sym_index_checks"] += 1
         bad = z3.Or(i.e < -n, i.e >= n)
-        if ENGINE.check(bad):
+        # fork: the out-of-range values end the path with the obligation; the in-range values (a negative one wraps, as in
+        # NumPy and in the compiled code) carry on, so that what the code does with them is still judged by the other queries
+        if ENGINE.branch(bad):
+            ENGINE.check()
             raise Obligation("oob", f"{what} {i.e} not within [-{n},{n})", ENGINE.solver.model())
         i = ENGINE.concretize(i.e)
     elif isinstance(i, SymBool):
@@ -919,8 +922,34 @@ class SArray:
         if isinstance(key, SArray) and key.dtype == "bool":
             raise NotImplementedError
         key = self._parse(key)
-        if any(isinstance(k, (list, SArray)) for k in key):
-            raise NotImplementedError("advanced setitem")
+        adv = [i for i, k in enumerate(key) if isinstance(k, (list, SArray))]
+        if adv:
+            # one 1-D index array (the only advanced form nucs uses for reading): assigned entry after entry, in index order, as
+            # NumPy does for a[idx] = v; with a repeated index the last assignment wins
+            if len(adv) != 1:
+                raise NotImplementedError("advanced setitem with several index arrays")
+            ai = adv[0]
+            idx = key[ai]
+            idx = idx.flat_values() if isinstance(idx, SArray) else list(idx)
+            idx = [ENGINE.concretize(i.e) if isinstance(i, SymInt) else int(i) for i in idx]
+            rest_shape = self[tuple(key[:ai]) + (0,) + tuple(key[ai + 1 :])] if idx else None
+            rshape = tuple(rest_shape.shape) if isinstance(rest_shape, SArray) else ()
+            full = (len(idx),) + rshape
+            if isinstance(value, SArray):
+                vals = broadcast_values(value, full)
+            elif isinstance(value, (list, tuple)):
+                vals = broadcast_values(array(value), full)
+            else:
+                vals = [value] * (len(idx) * prod(rshape))
+            per = prod(rshape)
+            for k, i in enumerate(idx):
+                chunk = vals[k * per : (k + 1) * per]
+                sub = tuple(key[:ai]) + (i,) + tuple(key[ai + 1 :])
+                if rshape:
+                    self[sub] = SArray(list(chunk), rshape, dtype=self.dtype)
+                else:
+                    self[sub] = chunk[0]
+            return
         target = self.__getitem_view(key)
         if isinstance(target, int):  # scalar position
             self._store(target, value)
@@ -974,6 +1003,15 @@ class SArray:
 
     def __sub__(self, o):
         return self._ew(o, lambda x, y: x - y)
+
+    def __or__(self, o):
+        # element-wise | ; `a[idx] |= b` is evaluated by Python as a[idx] = a[idx] | b, i.e. with NumPy's buffered semantics
+        # for fancy indices (a copy is read, the result is assigned back: for a repeated index the last assignment wins)
+        if self.dtype == "bool":
+            return self._ew(o, lambda x, y: (x | y) if isinstance(x, SymBool) else ((y | x) if isinstance(y, SymBool) else (bool(x) or bool(y))), "bool")
+        return self._ew(o, lambda x, y: x | y)
+
+    __ror__ = __or__
 
     def __ge__(self, o):
         return self._ew(o, lambda x, y: x >= y, "bool")
